@@ -43,13 +43,14 @@
    [(pre :watcher) (P "md") :all] [(pre :watcher)] [(pre :file)] [(pre :file) :all] [(pre :file) "x"]
    [(pre :server)] [(pre :stream)] [(pre :stream) 1] [(pre :proc)] [(pre :chan)] [(pre :chan) (P "m.txt")]
    [noop] [noop (P "m.txt")] ["\xc3"] [:int (P "m.txt")] [(P "m.txt") :int]
-   # appended (indices above stay stable): only in the thorough tier and in witness synthesis (`only`): the remaining
-   # os/open flag combinations (access mode x create x truncate x excl) and unix-domain socket addresses
-   ;(if (or only (= level "full"))
-      [[(P "n1") :rc] [(P "n1") :rce] [(P "m.txt") :rt] [(P "n1") :rct] [(P "m.txt") :wt] [(P "n1") :wct] [(P "n1") :rwc]
-       [(P "m.txt") :rwt] [(P "n1") :c] [(P "m.txt") :t] [(P "n1") :ct] [(P "n1") :ce] [(P "m.txt") :w] [(P "m.txt") :rw]
-       [:unix (P "n2")] [:unix (P "n2") :datagram] [:unix "@c18-abstract"] [:unix (P "n2") noop]]
-      [])])
+   # appended (indices above stay stable): the remaining os/open flag combinations (access mode x create x truncate x
+   # excl) and unix-domain socket addresses.  Thorough tier and witness synthesis (`only`): for every binding; quick tier:
+   # for the bindings in `extra-bindings` (the ones whose behaviour depends on these arguments).
+   [(P "n1") :rc] [(P "n1") :rce] [(P "m.txt") :rt] [(P "n1") :rct] [(P "m.txt") :wt] [(P "n1") :wct] [(P "n1") :rwc]
+   [(P "m.txt") :rwt] [(P "n1") :c] [(P "m.txt") :t] [(P "n1") :ct] [(P "n1") :ce] [(P "m.txt") :w] [(P "m.txt") :rw]
+   [:unix (P "n2")] [:unix (P "n2") :datagram] [:unix "@c18-abstract"] [:unix (P "n2") noop]])
+(def n-extra 18)    # number of appended shapes above
+(def extra-bindings {"os/open" true "file/open" true "net/connect" true "net/listen" true "net/address" true "net/server" true})
 
 (def pre-main (if (= mode "same") (make-pre) nil))
 
@@ -66,6 +67,7 @@
 
 (defn run-sweep []
   (def shapes (make-shapes (or pre-main (make-pre))))
+  (def base-shapes (- (length shapes) n-extra))
   (def names (sort (seq [k :keys root-env :when (symbol? k)] k)))
   (var id 0)
   (var ncalls 0)
@@ -84,7 +86,8 @@
                    (index-of nm ["os/execute" "os/spawn" "os/shell" "os/open" "os/pipe" "net/server" "file/read" "file/write"])))
     (when (and (or (function? v) (cfunction? v)) (not (ent :macro)) (not (in skip nm)) (or (nil? only) (in only nm)))
       (eachp [si args] shapes
-        (when (and (>= id start) (= shard (% id nshards)) (or wide (< si 2)))
+        (when (and (>= id start) (= shard (% id nshards)) (or wide (< si 2))
+                   (or (< si base-shapes) only (= level "full") (in extra-bindings nm)))
           (c18/mark id (string sym " " si " " (if (cfunction? v) "c" "j")))
           (if tasky
             (do
